@@ -93,6 +93,7 @@ pub fn run_case(ctx: &mut Ctx, case: &Value) {
         "cli" => cli::case_cli(ctx, case),
         "cli-reject" => cli::case_reject(ctx, case),
         "cli-twins" => cli::case_twins(ctx, case),
+        "cli-shift" => cli::case_shift(ctx, case),
         _ => ctx.fail_corr(case, format!("unknown case op {:?}", op)),
     }
 }
